@@ -7,6 +7,7 @@ import (
 	"go/types"
 	"math/big"
 	"os"
+	"sort"
 	"strconv"
 	"strings"
 
@@ -625,6 +626,191 @@ func (fc *FC) ReturnCond(match func(r *ssa.Return) bool) (*RF, int) {
 		}
 	}
 	return acc, n
+}
+
+// CanonIV: r with every derived induction variable of i's loop written in
+// terms of i: a loop-carried quantity c that starts at c0 and is advanced by a
+// loop-invariant amount dc once per iteration, next to a counter i that starts
+// at i0 and is advanced by one, is c0 + dc*(i - i0).
+func (fc *FC) CanonIV(r, i *RF) *RF {
+	s := fc.X.S
+	var ip *ssa.Phi
+	var ipa *Atom
+	for _, at := range i.Atoms(true) {
+		if ph, ok := fc.X.phiOf[at.ID]; ok && fc.X.phiFC[at.ID].isHeaderPhi(ph) {
+			ip, ipa = ph, at
+		}
+	}
+	if ip == nil {
+		return r
+	}
+	pfc := fc.X.phiFC[ipa.ID]
+	ii, in := recurrenceOrNil(pfc, i)
+	if ii == nil || !in.Sub(i).Equal(s.Int(1)) {
+		return r
+	}
+	sub := map[AtomID]*RF{}
+	for _, instr := range ip.Block().Instrs {
+		ph, ok := instr.(*ssa.Phi)
+		if !ok {
+			break
+		}
+		if ph == ip || !isIntType(ph.Type()) {
+			continue
+		}
+		c := pfc.Val(ph)
+		ca := c.SingleAtom()
+		if ca == nil || fc.X.phiOf[ca.ID] != ph {
+			continue
+		}
+		ci, cn := recurrenceOrNil(pfc, c)
+		if ci == nil {
+			continue
+		}
+		dc := cn.Sub(c)
+		if len(pfc.loopPhis(dc)) > 0 || hasAtomPrefix(dc, "memphi") {
+			continue
+		}
+		sub[ca.ID] = ci.Add(dc.Mul(i.Sub(ii)))
+	}
+	if len(sub) == 0 {
+		return r
+	}
+	return r.Subst(sub)
+}
+
+// ExitEdge: one way out of a loop, with the condition (at the iteration's
+// loop-carried values) under which the iteration takes it.
+type ExitEdge struct {
+	From, To *ssa.BasicBlock
+	Cond     *RF
+}
+
+// ExitEdges: the live edges leaving the loop headed by hdr.
+func (fc *FC) ExitEdges(hdr *ssa.BasicBlock) []ExitEdge {
+	var l *Loop
+	for _, ll := range fc.Ctx.Loops() {
+		if ll.Header == hdr {
+			l = ll
+		}
+	}
+	if l == nil {
+		anchorFail("no loop headed by block %d of %s", hdr.Index, fc.X.W.FuncName(fc.Fn))
+	}
+	var idxs []int
+	for bi := range l.Body {
+		idxs = append(idxs, bi)
+	}
+	sort.Ints(idxs)
+	var out []ExitEdge
+	for _, bi := range idxs {
+		blk := fc.Fn.Blocks[bi]
+		for _, sc := range fc.Ctx.LiveSuccs(blk) {
+			if l.Body[sc.Index] {
+				continue
+			}
+			out = append(out, ExitEdge{blk, sc, fc.X.S.And(fc.ReachCondFrom(hdr, blk), fc.edgeCond(blk, sc))})
+		}
+	}
+	return out
+}
+
+// FirstHit: the shape of a search loop — "the first index, from `first`
+// upwards, at which hit(e) holds, or `miss` when the indices below n are
+// exhausted".
+type FirstHit struct {
+	Base  *RF             // the sequence whose elements the test reads
+	First *RF             // first index examined
+	N     *RF             // indices run up to N-1
+	Hit   func(e *RF) *RF // the test at index e
+	Val   func(e *RF) *RF // value returned when the test holds at e
+	Miss  *RF             // value returned when no index qualifies
+}
+
+// FirstHitScan decides that the loop headed by hdr in fc is the search sp,
+// however it is written (early return, break, flag; index or range loop;
+// range over a sub-slice): the index e read by the loop's tests starts at
+// First and advances by one; the loop goes round again only when the test
+// fails at e; and every way out of the loop either has the test holding at e
+// and leads to Val(e), or has e >= N and leads to Miss.
+func (b *B) FirstHitScan(rule, construct, where string, fc *FC, hdr *ssa.BasicBlock, sp FirstHit) bool {
+	s, X, r := b.X.S, b.X, b.R
+	var l *Loop
+	for _, ll := range fc.Ctx.Loops() {
+		if ll.Header == hdr {
+			l = ll
+		}
+	}
+	exits := fc.ExitEdges(hdr)
+	cont := fc.ContinueCond(hdr)
+	// the index read by the tests
+	var e *RF
+	for _, src := range append([]*RF{cont}, func() []*RF {
+		var cs []*RF
+		for _, ee := range exits {
+			cs = append(cs, ee.Cond)
+		}
+		return cs
+	}()...) {
+		for _, at := range FindFn(src, "idx") {
+			if !at.Args[0].Equal(sp.Base) || len(fc.loopPhis(at.Args[1])) == 0 {
+				continue
+			}
+			if e != nil && !e.Equal(at.Args[1]) {
+				r.Fail(rule, construct, where, "the loop tests elements at several indices: "+clip(e.String(), 60)+" and "+clip(at.Args[1].String(), 60))
+				return false
+			}
+			e = at.Args[1]
+		}
+	}
+	if e == nil {
+		r.Fail(rule, construct, where, "the loop does not test the elements of "+clip(sp.Base.String(), 60))
+		return false
+	}
+	ei, en := fc.Recurrence(e)
+	if !ei.Equal(sp.First) && !X.EquivByCases(ei, sp.First, 0) {
+		r.Fail(rule, construct, where, "the first index examined is "+clip(ei.String(), 100)+", not "+clip(sp.First.String(), 100))
+		return false
+	}
+	if !en.Sub(e).Equal(s.Int(1)) {
+		r.Fail(rule, construct, where, "the index does not advance by one: "+clip(en.String(), 100))
+		return false
+	}
+	hit := sp.Hit(e)
+	if X.EvalCond(hit, []Assumption{{Cond: cont, True: true}}) != False {
+		r.Fail(rule, construct, where, "the loop can go on past an index at which the test holds: continues while "+clip(cont.String(), 200))
+		return false
+	}
+	exhausted := s.Cmp("<=", sp.N, e)
+	for _, ee := range exits {
+		v := fc.gatedReturns(ee.To, 0, nil)
+		if v == nil {
+			r.Undecided(rule, construct, where, "the value returned after leaving the loop is not computable")
+			return false
+		}
+		if s.isBottom(v) {
+			continue // a panic: no value
+		}
+		v = fc.resolveExitPhis(l, ee.To, v)
+		as := []Assumption{{Cond: ee.Cond, True: true}}
+		switch {
+		case X.EvalCond(hit, as) == True:
+			if want := sp.Val(e); !(v.Equal(want) || X.EquivByCases(X.SimplifyUnder(v, as), X.SimplifyUnder(want, as), 0)) {
+				r.Fail(rule, construct, where, "at a hit the result is "+clip(v.String(), 160)+", not "+clip(want.String(), 160))
+				return false
+			}
+		case X.EvalCond(exhausted, as) == True:
+			if !(v.Equal(sp.Miss) || X.SimplifyUnder(v, as).Equal(sp.Miss)) {
+				r.Fail(rule, construct, where, "with the indices exhausted the result is "+clip(v.String(), 160)+", not "+clip(sp.Miss.String(), 60))
+				return false
+			}
+		default:
+			r.Fail(rule, construct, where, "the loop can be left while "+clip(ee.Cond.String(), 200)+": neither at a hit nor with the indices exhausted")
+			return false
+		}
+	}
+	r.OK(rule, construct, where, "searches e = "+clip(sp.First.String(), 60)+", … for the first hit; result at the hit / when exhausted as stated")
+	return true
 }
 
 // ContinueCond: the condition, within one iteration of the loop headed by hdr
@@ -2310,6 +2496,19 @@ func (x *Extractor) ExpandCalls(r *RF) *RF {
 // (equalities among them are substituted, e.g. len(xs)==len(ys) after the
 // length-mismatch panic).
 func (b *B) EqAt(rule, construct, where string, fc *FC, at ssa.Instruction, got, want *RF, what string) bool {
+	g, w := fc.atSite(at, got, want)
+	return b.EqRF(rule, construct, where, g, w, what)
+}
+
+// EqualAt: got ≡ want given the branch conditions known at instruction at.
+func (fc *FC) EqualAt(at ssa.Instruction, got, want *RF) bool {
+	g, w := fc.atSite(at, got, want)
+	return g.Equal(w) || fc.X.EquivByCases(g, w, 0)
+}
+
+// atSite: both values simplified under the facts at the site, equalities among them substituted.
+func (fc *FC) atSite(at ssa.Instruction, got, want *RF) (*RF, *RF) {
+	b := struct{ X *Extractor }{fc.X}
 	var as []Assumption
 	as = append(as, fc.Assume...)
 	for _, f := range fc.Ctx.Facts(at.Block()) {
@@ -2329,7 +2528,7 @@ func (b *B) EqAt(rule, construct, where string, fc *FC, at ssa.Instruction, got,
 			g, w = g.Subst(sub), w.Subst(sub)
 		}
 	}
-	return b.EqRF(rule, construct, where, g, w, what)
+	return g, w
 }
 
 // RefutedAt: cond is contradicted by the branch conditions known on entry to blk.
